@@ -446,6 +446,8 @@ pub fn all() -> Vec<Case> {
     // literal decoding errors whose location is `base + range` over decoded pieces: brace escapes x character
     // widths x every fatal escape error x what follows / precedes the f-string part
     v.extend(super::escapes::representatives());
+    // every stage's report for a text embedded in a host file at line N (`SourceFile::location_offset`)
+    v.extend(super::escapes::line_offsets());
     // the type checker's error paths: declarations of every arity (none included) × every use,
     // and every REGISTERED function (hook `runtime_functions`) with receiver syntax on every kind of receiver
     v.extend(super::typeerrors::degenerate());
